@@ -286,6 +286,15 @@ func (ds *dataSet) SetRdb(rdb *dataSetRdb) {
 	ds.rdb = rdb
 }
 
+// dropRdb forgets rdb if it is still the snapshot of this data set
+func (ds *dataSet) dropRdb(rdb *dataSetRdb) {
+	ds.mux.Lock()
+	defer ds.mux.Unlock()
+	if ds.rdb == rdb {
+		ds.rdb = nil
+	}
+}
+
 func (ds *dataSet) GetRdb() *dataSetRdb {
 	ds.mux.RLock()
 	defer ds.mux.RUnlock()
